@@ -25,6 +25,23 @@ def fingerprint(root):
     return tuple(out)
 
 
+_AUDIT = {'on': None}
+
+
+def _audit(event, args):
+    sn = _AUDIT['on']
+    if sn is not None and event == 'open':
+        try:
+            path, mode, flags = args[0], args[1], args[2]
+            if isinstance(path, (str, bytes, os.PathLike)):
+                sn.opens.append((len(sn.snaps), os.path.abspath(os.fsdecode(path)), mode, flags))
+        except Exception:
+            pass
+
+
+_AUDIT_INSTALLED = []
+
+
 class Snapshots:
     """run fn() under sys.settrace; copy `root` aside whenever its content
     changed between two executed lines of code under `srcprefix`"""
@@ -35,6 +52,7 @@ class Snapshots:
         self.snaps = []      # list of (where, dir copy path)
         self.last = None
         self.events = 0
+        self.opens = []      # (number of snapshots taken so far, path, mode, flags) of every open() in the process
 
     def _take(self, where):
         fp = fingerprint(self.root)
@@ -69,7 +87,11 @@ class Snapshots:
     def run(self, fn):
         self._take('start')
         exc = None
+        if not _AUDIT_INSTALLED:
+            sys.addaudithook(_audit)
+            _AUDIT_INSTALLED.append(True)
         old = sys.gettrace()
+        _AUDIT['on'] = self
         sys.settrace(self._global)
         try:
             fn()
@@ -77,8 +99,22 @@ class Snapshots:
             exc = e
         finally:
             sys.settrace(old)
+            _AUDIT['on'] = None
         self._take('end')
         return exc
+
+    def inplace_files(self, i):
+        """names (relative to root) of files that were opened for update WITHOUT truncation (r+, no O_TRUNC) while
+        the disk went from snapshot i-1 to snapshot i: a write torn there leaves new bytes followed by old ones"""
+        out = set()
+        root = os.path.abspath(self.root)
+        for (n, path, mode, flags) in self.opens:
+            if i - 2 <= n <= i and path.startswith(root + os.sep):
+                trunc = bool(flags & os.O_TRUNC) if isinstance(flags, int) else ('w' in str(mode))
+                writes = isinstance(flags, int) and bool(flags & (os.O_WRONLY | os.O_RDWR))
+                if writes and not trunc and not (isinstance(flags, int) and flags & os.O_APPEND):
+                    out.add(os.path.relpath(path, root))
+        return out
 
 
 def changed_files(a, b):
@@ -87,10 +123,24 @@ def changed_files(a, b):
     return [k for k in sorted(set(fa) | set(fb)) if fa.get(k) != fb.get(k) and not k.endswith('/')]
 
 
-def torn_contents(old, new):
+def torn_contents(old, new, inplace=False):
     """plausible contents of a file caught in the middle of the write that
-    turns `old` (bytes or None) into `new` (bytes or None)"""
+    turns `old` (bytes or None) into `new` (bytes or None); inplace: the file
+    was opened for update without truncation"""
     out = []
+    if inplace and old and new is not None and not new.startswith(old):
+        # overwritten from offset 0, cut to size afterwards: new bytes up to n, old bytes from n on
+        diff = [k for k in range(min(len(old), len(new))) if old[k] != new[k]]
+        cuts = set()
+        for k in diff[:3] + diff[-3:]:
+            cuts.update((k, k + 1))
+        cuts.update((1, len(new) // 2, len(new) - 1))
+        for n in sorted(cuts):
+            if 0 < n < max(len(old), len(new)):
+                out.append(new[:n] + old[n:])
+        if len(new) < len(old):
+            out.append(new + old[len(new):])      # everything written, not yet cut to size
+        return [c for c in dict.fromkeys(out) if c != old and c != new]
     if new is None:           # unlink is atomic
         return out
     old = old or b''
@@ -109,14 +159,14 @@ def torn_contents(old, new):
     return out
 
 
-def torn_variants(prev, nxt, store, tag):
+def torn_variants(prev, nxt, store, tag, inplace=()):
     """directories = nxt with one changed file replaced by a torn content"""
     out = []
     for rel in changed_files(prev, nxt):
         po, pn = os.path.join(prev, rel), os.path.join(nxt, rel)
         old = open(po, 'rb').read() if os.path.isfile(po) else None
         new = open(pn, 'rb').read() if os.path.isfile(pn) else None
-        for i, content in enumerate(torn_contents(old, new)):
+        for i, content in enumerate(torn_contents(old, new, inplace=rel in inplace)):
             d = os.path.join(store, '%s_%s_%d' % (tag, rel.replace('/', '_'), i))
             shutil.copytree(prev, d, symlinks=True)
             tgt = os.path.join(d, rel)
